@@ -35,7 +35,15 @@ def build(world, ctx):
             for j, tv in enumerate(cd['tparams']):
                 env[f'TP_{k}_{j}'] = U.render_tv(tv)
             base = '(Generic[' + ', '.join(f'TP_{k}_{j}' for j in range(len(cd['tparams']))) + '])'
-        if kind in ('generic', 'pedantic'):
+        if kind == 'gensub':
+            # generic by inheritance only: class Sub(Base[int, T1..Tn]) - Generic is not among the direct bases
+            env[f'TPB_{k}'] = U.render_tv({'id': 40 + k, 'constraints': [], 'bound': None, 'contra': False})
+            for j, tv in enumerate(cd['tparams']):
+                env[f'TP_{k}_{j}'] = U.render_tv(tv)
+            own = ', '.join(f'TP_{k}_{j}' for j in range(len(cd['tparams'])))
+            src.append(f'@pedantic_class\nclass B{k}x(Generic[TPB_{k}, {own}]):\n    pass\n')
+            base = f'(B{k}x[int, {own}])'
+        if kind in ('generic', 'pedantic', 'gensub'):
             src.append('@pedantic_class')
         src.append(f'class K{k}x{base}:')
         deco = '@pedantic\n    ' if kind == 'plain' else ''
@@ -47,7 +55,7 @@ def build(world, ctx):
         src.append('\n'.join(body) if body else '    pass\n')
         # the construction lives in the generated source with its type arguments spelled as a subscription
         # (pedantic scans the caller's source text for an unparametrised construction)
-        if kind == 'generic':
+        if kind in ('generic', 'gensub'):
             src.append(f'def new_{k}(xs, kw):\n    inst = K{k}x[xs](**kw)\n    return inst\n')
         else:
             src.append(f'def new_{k}(xs, kw):\n    inst = K{k}x(**kw)\n    return inst\n')
@@ -69,7 +77,7 @@ def run_case(c):
     for k, cd in enumerate(world['classes']):
         r_world['classes'].append({
             'kind': cd['kind'], 'tparams': [U.reify_ann(env[f'TP_{k}_{j}'])[1] for j in range(len(cd.get('tparams') or []))]
-            if cd['kind'] == 'generic' else [],
+            if cd['kind'] in ('generic', 'gensub') else [],
             'init': reify_sig(env, f'A_{k}_i', cd['init']) if cd['init'] is not None else None,
             'methods': [reify_sig(env, f'A_{k}_{m}', sg) for m, sg in enumerate(cd['methods'])]})
     slots = {}
@@ -93,7 +101,7 @@ def run_case(c):
                 out.append(9); r_steps.append(s); excs.append(None); continue
             cd = world['classes'][k]
             r_xs = []
-            if cd['kind'] == 'generic':
+            if cd['kind'] in ('generic', 'gensub'):
                 xr = tuple(U.render_ann(x) for x in xs)
                 alias = getattr(mod, f'K{k}x')[xr]
                 r_xs = [U.reify_ann(x, False) for x in typing.get_args(alias)]
